@@ -39,13 +39,60 @@ fn unknown(mut c: Case) -> Case {
     c
 }
 
+/// cap on executions per item: far above what any item needs on the unchanged tree (a changed tree can make
+/// an item explode, e.g. one surplus worker); an item that hits its cap is reported as not exhaustive
+const DEFAULT_CAP: u64 = 150_000;
+
 fn item(case: Case, plan: Plan, checks: u32) -> Item {
     // unwrapped sources have no pull points: interleave at closure entries instead
     let mut case = case;
+    let mut plan = plan;
     if !case.src.wrapped() {
         case.cpoints = true;
     }
+    // hash sets iterate in an order that differs from instance to instance (RandomState): with more than
+    // one element an execution could not be replayed, so these sources only run with <= 1 element
+    if matches!(case.src, Src::PHash | Src::PHashRef) && case.input.len() > 1 {
+        case.input.truncate(1);
+    }
+    if !plan.single && plan.max_execs == 0 {
+        plan.max_execs = DEFAULT_CAP;
+    }
     Item { case, plan, checks }
+}
+
+/// many workers and a slow spawner: workers are spawned after the first lag period, `Min` chunk sizes grow
+/// (the spawner's view of the remaining length depends on how far the first workers got)
+fn engine_lag(terms: &[Term], checks: u32, tier: Tier, kernels: &[&str]) -> Vec<Item> {
+    let th = tier == Tier::Thorough;
+    let mut out = Vec::new();
+    for (src, known) in [(Src::SVec, true), (Src::SIter, true)] {
+        for ch in kernels {
+            for t in terms {
+                for cs in [CsSet::Min(1), CsSet::Min(2), CsSet::Keep] {
+                    for n in [24usize, 31, 40] {
+                        for w in [6usize, 8] {
+                            if !th && (w == 8 && n != 31) {
+                                continue;
+                            }
+                            let mut c = par(case(src, n, ch, *t), w, cs);
+                            c.known = known;
+                            c.pmask = 1 << 20;
+                            for mc in mask_variants(&c, false) {
+                                out.push(item(mc.clone(), Plan::db(1), checks));
+                                out.push(item(mc.clone(), Plan::base_rr().with_slow0(2), checks));
+                                if th {
+                                    out.push(item(mc.clone(), Plan::db(1).with_slow0(2), checks));
+                                    out.push(item(mc, Plan::db(2).with_cap(20_000), checks));
+                                }
+                            }
+                        }
+                    }
+                }
+            }
+        }
+    }
+    out
 }
 
 fn fair(p: Plan, w: usize) -> Plan {
@@ -294,6 +341,7 @@ pub fn items(prop: &str, tier: Tier) -> Vec<Item> {
             let terms: Vec<Term> = if th { ORDERED.to_vec() } else { vec![Term::CollectVec, Term::Collect, Term::IntoVec, Term::IntoSplitD, Term::IntoFixed] };
             let kernels: Vec<&str> = if th { KC[1..].to_vec() } else { KC4.to_vec() };
             out.extend(engine_s(&terms, CK_RESULT, tier, &kernels, true));
+            out.extend(engine_lag(&[Term::CollectVec, Term::Collect], CK_RESULT, tier, &KC[1..]));
             out.extend(engine_e(&[Term::CollectVec, Term::Collect, Term::IntoVec], CK_RESULT, tier, &[], &[]));
         }
         // find / first / any / all
@@ -335,6 +383,7 @@ pub fn items(prop: &str, tier: Tier) -> Vec<Item> {
                     }
                 }
             }
+            out.extend(engine_lag(&[Term::Find], CK_RESULT, tier, &["", "M", "MF", "OF", "XF"]));
             // *_with_index on the concrete builder types
             for ch in ["", "M", "F", "MF", "MM", "FF"] {
                 for cs in [CsSet::N(1), CsSet::N(2)] {
@@ -413,12 +462,14 @@ pub fn items(prop: &str, tier: Tier) -> Vec<Item> {
                     }
                 }
             }
+            out.extend(engine_lag(&[Term::Reduce], CK_RESULT, tier, &KC));
             out.extend(engine_e(&[Term::Reduce], CK_RESULT, tier, &[], &[0, 1, 2, 3]));
         }
         // count / for_each
         "C04" => {
             let kernels: Vec<&str> = KC.to_vec();
             out.extend(engine_s(&[Term::Count, Term::ForEach], CK_RESULT, tier, &kernels, true));
+            out.extend(engine_lag(&[Term::Count], CK_RESULT, tier, &KC));
             out.extend(engine_e(&[Term::Count, Term::ForEach], CK_RESULT, tier, &[], &[]));
         }
         // closures exactly once; by-value source exclusive
@@ -428,6 +479,7 @@ pub fn items(prop: &str, tier: Tier) -> Vec<Item> {
             let kernels: Vec<&str> = if th { KC[1..].to_vec() } else { vec!["M", "MF", "F", "OF", "XF"] };
             out.extend(engine_s(&full_visit, ck, tier, &kernels, false));
             out.extend(engine_s(&[Term::Find, Term::Any], ck, tier, &["", "M", "MF", "OF", "XF"], false));
+            out.extend(engine_lag(&[Term::CollectVec, Term::Count, Term::Reduce], ck, tier, &["M", "MF", "OF", "XF"]));
             out.extend(engine_e(&[Term::CollectVec, Term::Count, Term::Reduce, Term::CollectX, Term::Find], ck, tier, &[0b0100, 0], &[0]));
             // exclusivity: scheduling points *inside* the source iterator's next()
             for src in [Src::SIter, Src::PIter] {
@@ -510,6 +562,7 @@ pub fn items(prop: &str, tier: Tier) -> Vec<Item> {
                     }
                 }
             }
+            out.extend(engine_lag(&[Term::CollectX], CK_RESULT, tier, &KC));
             out.extend(engine_e(&[Term::CollectX], CK_RESULT, tier, &[], &[]));
         }
         // Max(n) bounds concurrency
@@ -555,6 +608,27 @@ pub fn items(prop: &str, tier: Tier) -> Vec<Item> {
                                     }
                                     out.push(item(c, Plan::db(2), ck));
                                 }
+                            }
+                        }
+                    }
+                }
+            }
+            // more than 4 workers: the spawn loop goes through a second round after the lag period
+            for (ch, t) in progs {
+                for n in [5usize, 6, 7, 8] {
+                    for len in [24usize, 40] {
+                        for cs in [CsSet::N(1), CsSet::Min(1)] {
+                            if !th && ((n == 5 || n == 8) && len == 40) {
+                                continue;
+                            }
+                            let mut c = par(case(Src::SVec, len, ch, t), n, cs);
+                            c.pmask = 1 << 30;
+                            // no closure points: pulls are the points, thread ids come from the call log
+                            out.push(item(c.clone(), Plan::base_rr(), ck));
+                            out.push(item(c.clone(), Plan::db(1), ck));
+                            out.push(item(c.clone(), Plan::base_rr().with_slow0(2), ck));
+                            if th {
+                                out.push(item(c, Plan::db(2).with_cap(30_000), ck));
                             }
                         }
                     }
@@ -710,18 +784,27 @@ pub fn items(prop: &str, tier: Tier) -> Vec<Item> {
             let progs: [(&str, Term); 5] = [("M", Term::CollectVec), ("MF", Term::CollectVec), ("M", Term::Reduce), ("MF", Term::Count), ("XF", Term::CollectX)];
             for (ch, t) in progs {
                 for w in [6usize, 7] {
-                    for c in [1usize, 2] {
-                        for n in [10 * c, 20 * c, 20 * c + 1] {
+                    for c in [1usize, 2, 3] {
+                        // the growth / re-evaluation logic looks at done and remaining lengths after the first lag
+                        // period: a dense range of input lengths around 4 workers x 2..8 chunks, plus longer inputs
+                        let mut ns: Vec<usize> = (6 * c..=16 * c).collect();
+                        ns.extend([20 * c, 24 * c, 30 * c + 1, 40 * c]);
+                        for n in ns {
                             for (src, known) in [(Src::SVec, true), (Src::SIter, true), (Src::SIter, false)] {
-                                if !th && (w == 7 && n == 10 * c) {
+                                if !th && (w == 7 || c == 3) && n % (2 * c) != 0 {
+                                    continue;
+                                }
+                                if !th && src == Src::SIter && ch != "M" && n % c != 0 {
                                     continue;
                                 }
                                 let mut cs = par(case(src, n, ch, t), w, CsSet::Exact(c));
                                 cs.known = known;
                                 out.push(item(cs.clone(), Plan::base_np(), ck));
-                                out.push(item(cs.clone(), Plan::db(if th { 2 } else { 1 }), ck));
-                                if th && w == 6 && n == 10 * c {
-                                    out.push(item(cs, Plan::pb(1).with_cap(150_000), ck));
+                                out.push(item(cs.clone(), Plan::db(1), ck));
+                                out.push(item(cs.clone(), Plan::base_rr().with_slow0(2), ck));
+                                if th {
+                                    out.push(item(cs.clone(), Plan::db(1).with_slow0(2), ck));
+                                    out.push(item(cs.clone(), Plan::db(2).with_cap(30_000), ck));
                                 }
                             }
                         }
@@ -872,6 +955,15 @@ pub fn items(prop: &str, tier: Tier) -> Vec<Item> {
                     }
                 }
             }
+            // every instantiated program x inputs of length 0..4 (single-element inputs = a single worker) x targets
+            out.extend(engine_e(
+                &[Term::CollectVec, Term::Collect, Term::CollectX, Term::IntoVec, Term::IntoSplitD, Term::IntoFixed, Term::Count, Term::Reduce, Term::Find, Term::First],
+                ck,
+                tier,
+                &[0b0010, 0],
+                &[0],
+            ));
+            out.extend(engine_lag(&[Term::CollectVec, Term::CollectX, Term::Find], ck, tier, &["M", "MF", "XF"]));
             // eager (materialising) chains and deeper chains, sequential and parallel
             for cid in 0..chains::N_CHAINS {
                 for t in [Term::CollectVec, Term::Count, Term::Find, Term::Reduce, Term::CollectX] {
